@@ -191,6 +191,10 @@ func Run(cfg Config, prefix []uint8, body func()) *Result {
 	for _, p := range allPools {
 		p.reset()
 	}
+	if cfg.Race {
+		raceReset()
+		atomicVC = nil
+	}
 	crandNext = cfg.CrandSeed
 	mrandState = 1
 	S = s
